@@ -18,15 +18,32 @@ static ld chord(V3 a, V3 b) { return v3_len(v3_sub(a, b)); }
 static void check_boundary(H3Index e, const vf_cell *A, const vf_cell *B, uint64_t key) {
     int idx[4];
     int np = vf_shared_stretch(A, B, idx);
-    if (np < 2) {
-        vf_add("undecided.no_shared_stretch", 1); /* C08's business; not judged here */
-        return;
-    }
     CellBoundary cb;
     memset(&cb, 0, sizeof cb);
     H3Error er = directedEdgeToBoundary(e, &cb);
     if (er) {
         vf_violation("error", "directedEdgeToBoundary", key, "", "rc=%u on valid edge %016" PRIx64, er, e);
+        return;
+    }
+    if (np < 2) {
+        /* the two cellToBoundary outputs do not share a stretch within 1e-12 (the tiling clause of C08): the clause "the opposite
+         * edge yields the same points in reverse order" does not need the stretch and is still judged */
+        vf_add("undecided.no_shared_stretch", 1);
+        H3Index rev0 = 0;
+        CellBoundary rb0;
+        if (!cellsToDirectedEdge(B->h, A->h, &rev0) && !directedEdgeToBoundary(rev0, &rb0)) {
+            if (rb0.numVerts != cb.numVerts)
+                vf_violation("edge-reverse", "directedEdgeToBoundary", key, "", "edge %016" PRIx64 " has %d points, the opposite edge %016" PRIx64 " has %d", e, cb.numVerts, rev0, rb0.numVerts);
+            else
+                for (int i = 0; i < cb.numVerts; i++) {
+                    ld d = chord(v3_from_ll(cb.verts[i]), v3_from_ll(rb0.verts[cb.numVerts - 1 - i]));
+                    vf_maxd("edge_reverse_mismatch_rad", (double)d);
+                    if (d > 1e-12L) {
+                        vf_violation("edge-reverse", "directedEdgeToBoundary", key, "", "edge %016" PRIx64 " point %d differs from the opposite edge's point %d by %.3Lg rad", e, i, cb.numVerts - 1 - i, d);
+                        break;
+                    }
+                }
+        }
         return;
     }
     if (cb.numVerts != np) {
